@@ -79,6 +79,9 @@ Catalogue == {
        \o BlockBody(DToks, Canon(DLit8), DLit8, Canon(DDist), DDist), "accept", ""),
   \* ---- one input per way a production can fail
   Case("block-type-3", << F(1, 1), F(3, 2), F(0, 5) >>, "reject", "block-type"),
+  \* the reserved block type in front of what would be a well-formed dynamic block
+  Case("block-type-3-dynamic-body", HeaderFields(1, 3) \o SubSeq(DynBlock(1, DItems, DToks), 3, Len(DynBlock(1, DItems, DToks))),
+       "reject", "block-type"),
   Case("stored-nlen", HeaderFields(1, 0) \o << F(0, 5), F(2, 16), F(65532, 16), F(7, 8), F(8, 8) >>, "reject", "len-nlen"),
   \* NLEN with ones where the complement has zeros (LEN | NLEN is still all ones, LEN xor NLEN is not)
   Case("stored-nlen-extra-ones", HeaderFields(1, 0) \o << F(0, 5), F(2, 16), F(65535, 16), F(7, 8), F(8, 8) >>, "reject", "len-nlen"),
